@@ -15,7 +15,8 @@ META = {
                    "inverse and fit 5 bits; (P-push) decoders never push past the capacity; (Q-1230) mask bit <-> signal tables of encode and decode are "
                    "inverse, decode order equals the encoder's sort order, at most 4 entries; quantisers: round-half-away, same resolution both ways, "
                    "pattern round trip bound (Q-quant). Multiset equality follows from these under the property's precondition (distinct recognised "
-                   "signals); it is not checked end to end.",
+                   "signals); it is not checked end to end."
+                   "(B-sem) the bit-exact reading of put / parse these clauses stand on (field bits MSB first at the cursor, nothing else touched) is the abstract interpretation of C07, imported and decided here too. (S-sem) likewise the two's-complement reading of the signed bias carriers.",
     "assumptions": [],
 }
 
